@@ -242,3 +242,20 @@ def plan_C14(chk, tier, seed):
 
 
 PLANS.update({"C13": plan_C13, "C14": plan_C14})
+
+
+def plan_C06(chk, tier, seed):
+    cfgs = ["all"] if tier == "quick" else ["none", "all", "tpp"]
+    deep = "TRUE" if tier == "thorough" else "FALSE"
+    simple(chk, "MC_Unknown", cfgs, ["C06"], ["TypeOK", "DecodeTotal", "UnknownSkipped", "Emit"],
+           extra_constants="    Deep = %s\n" % deep, workers=14)
+    return ("an unknown text-keyed member inserted into every extensible map (options, both extension maps, rp, user, "
+            "descriptors in allow / exclude lists and in credential-management parameters, parameter entries) of the "
+            "full MakeCredential / GetAssertion / CredentialManagement requests: every unknown value (integers of every "
+            "width incl. 64-bit, negative and non-shortest, strings of 0..256 bytes, nested arrays and maps exhaustively "
+            "to depth 2 (thorough) plus a depth-16 chain, tags incl. nested and 64-bit, half/single/double floats, every "
+            "kind of simple value, real-world extras) at the first and last position, and every position x every "
+            "real-world key for five values; TLC checks decode(with) == decode(without) on the model")
+
+
+PLANS.update({"C06": plan_C06})
